@@ -40,7 +40,7 @@ Abstractions (each is the removal of something no code path can observe):
   that the retry reports the same diagnostic.
 * include depth is bounded by `fuel` (cyclic includes, known finding K2, end in `Result.fuel`); the two task
   loops carry a round counter whose exhaustion is the separate outcome `.loop` (never produced: after one
-  round no local task is left); a region that reaches 2^32 bytes ends in `Result.huge` (see `segStep`).
+  round no local task is left).
 
 Every logic-level panic site is an explicit `.panic`:
  `get_constant/insert_constant/defer_constant/add_task` "no local scope"; `local_tasks.replace(..).unwrap()`,
@@ -95,9 +95,9 @@ inductive Realm where
 deriving DecidableEq, Repr, Inhabited
 
 /-- why a model function did not return: a Rust panic; include fuel exhausted (K2); task-loop rounds exhausted
-(never); a single region that holds 2^32 bytes (`huge`, see `segStep`) -/
+(never) -/
 inductive Stop where
-  | panic | fuel | loop | huge
+  | panic | fuel | loop
 deriving DecidableEq, Repr, Inhabited
 
 /-- outcome of a model function -/
@@ -406,20 +406,11 @@ def evalPanics (t : Table) (as : List Arg) : Bool :=
 /-- `ActiveSegment::curr_addr` of the active region -/
 def currAddr (st : St) : Option Nat := st.seg.active.map Seg.Active.cur
 
-/-- the active region holds fewer than 2^32 bytes -/
-def small (s : Seg.State) : Bool :=
-  match s.active with
-  | some seg => decide (seg.buf.length < 4294967296)
-  | none => true
-
-/-- one operation of the region machine. `Stop.huge`: the active region has reached 2^32 bytes (a region based
-at 0 and filled to the top of the address space, 4 GiB of output). From there on `ActiveSegment::curr_addr`
-wraps (`buffer.len() as u32`) and a later rewrite of a placed statement can reach `assert_eq!(n, 0)`; the model
-stops at this point instead of following the code further (cf. `Seg.Small` in Props/C13.lean). -/
+/-- one operation of the region machine; a panic of `Seg.step` is a panic of the pipeline -/
 def segStep (s : Seg.State) (op : Seg.Op) : Out (Seg.State × Seg.Out) :=
   match Seg.step s op with
   | (_, .panic) => .stop .panic
-  | (s', o) => if small s' then .ok (s', o) else .stop .huge
+  | (s', o) => .ok (s', o)
 
 /-- the target choice shared by `write_data` and `write_instr` for a statement at `addr`:
 not placed and a region is active → `write` (append at the cursor); otherwise the choice between `write_at`
@@ -1079,7 +1070,6 @@ inductive Result where
   | panic
   | fuel
   | loop
-  | huge
 deriving Repr, Inhabited
 
 /-- include depth allowed before the model gives up (`Result.fuel`, cf. K2) -/
@@ -1102,11 +1092,9 @@ def runWith (enc : Encoder) (fs : Bytes → Option Bytes) (main : Bytes) : Resul
         | .stop .panic => .panic
         | .stop .fuel => .fuel
         | .stop .loop => .loop
-        | .stop .huge => .huge
     | .stop .panic => .panic
     | .stop .fuel => .fuel
     | .stop .loop => .loop
-    | .stop .huge => .huge
 
 /-- `Instruction::encode` into the 4-byte buffer of `write_instr` -/
 def encoder : Encoder := fun i =>
